@@ -120,10 +120,47 @@ def replay_case(case):
         drv.kill()
 
 
+def pack_prelude(log):
+    import zlib, base64
+    return base64.b64encode(zlib.compress(b''.join(struct.pack('<I', len(x)) + x for x in log), 6)).decode()
+
+
+def replay_with_prelude(case, prelude):
+    """One fresh driver process: first every request the original process had served before the case, then the case."""
+    import zlib, base64
+    raw = zlib.decompress(base64.b64decode(prelude))
+    drv = Driver(timeout=60)
+    try:
+        i = 0
+        while i < len(raw):
+            n = struct.unpack('<I', raw[i:i + 4])[0]
+            pl = raw[i + 4:i + 4 + n]
+            i += 4 + n
+            if pl[:1] == b'P':        # fonts: go through the store so that ids agree with what judge() will use
+                fid, ln = struct.unpack('<II', pl[1:9])
+                data = pl[9:9 + ln]
+                drv.fonts[fid] = data; drv.font_ids[hash(data)] = fid; drv.next_font = max(drv.next_font, fid + 1)
+            elif pl[:1] == b'X':
+                fid = struct.unpack('<I', pl[1:5])[0]
+                d0 = drv.fonts.pop(fid, None)
+                if d0 is not None:
+                    drv.font_ids.pop(hash(d0), None)
+            try:
+                drv._raw(pl, timeout=60)
+            except (DriverCrash, DriverHang):
+                raise Inconclusive()
+        judge(case, drv)
+    finally:
+        drv.kill()
+
+
 def replay_file(path):
     d = json.load(open(path))
     try:
-        replay_case(d['case'])
+        if d.get('prelude'):
+            replay_with_prelude(d['case'], d['prelude'])
+        else:
+            replay_case(d['case'])
     except Violation as v:
         print('VIOLATION property=%s replay=%s label=%s' % (PROP, path, v.label))
         return 1
@@ -134,6 +171,8 @@ def replay_file(path):
 def worker(ctx):
     from hypothesis import given, strategies as st
     drv = Driver()
+    drv.record = True            # keeps the raw requests served by the current driver process (restarted every 3000 requests)
+    state = dict(fresh_checked=False)
     rec = ctx.rec
     names = cases.SHIPPED_ALL if ctx.thorough() else cases.SHIPPED_QUICK
     sup = cases.supported_map(drv, names)
@@ -190,7 +229,45 @@ def worker(ctx):
         def t(case):
             # justify is applied only where C19's preconditions hold trivially: drop justify ops on segments whose direction may mismatch
             case = dict(case, ops=[o for o in case['ops'] if o['k'] != 'justify' or True])
-            r, nprobe, other = judge(case, drv)
+            if ctx.abort_chunk:
+                return
+            mark = len(drv.log) if drv.log is not None else None
+            try:
+                r, nprobe, other = judge(case, drv)
+            except Violation as v:
+                if state['fresh_checked'] or mark is None or v.label.startswith('sanitizer'):
+                    raise
+                # Does the same case fail in a process that has served nothing else?  If it does not, the answer depended on what this
+                # process did before: that is a violation of history independence in itself (state outside the face and font objects),
+                # and its reproduction is the process history, not the case alone.
+                state['fresh_checked'] = True
+                try:
+                    replay_case(case)
+                except Violation:
+                    raise v
+                except Inconclusive:
+                    raise v
+                prelude = pack_prelude(drv.log[:mark])
+                ok = 0
+                for _ in range(2):
+                    try:
+                        replay_with_prelude(case, prelude)
+                    except Violation:
+                        ok += 1
+                    except Inconclusive:
+                        pass
+                if ok == 2:
+                    import framework
+                    os.makedirs(os.path.join(framework.REPLAY_OUT, PROP), exist_ok=True)
+                    path = os.path.join(framework.REPLAY_OUT, PROP, 'process-history-%s.json' % framework.h64(case)[:8])
+                    json.dump(dict(property=PROP, label='segment-depends-on-process-history', detail=str(v.detail)[:2000] + ' | does not fail in a fresh process; fails after the recorded prelude of %d requests' % mark,
+                                   case=case, prelude=prelude), open(path, 'w'))
+                    rec.violations.append(dict(label='segment-depends-on-process-history', detail='%s; fresh process: passes; after replaying the %d earlier requests of the process: fails 2/2' % (v.label, mark), replay=path))
+                    ctx.stop = True
+                    ctx.abort_chunk = True
+                    return
+                rec.notes.append('FLAKY-NOT-REPORTED %s (not in a fresh process, %d/2 with the process prelude)' % (v.label, ok))
+                return
             for o in other:
                 rec.other[o] = rec.other.get(o, 0) + 1
             segs_before = 0
